@@ -1,89 +1,87 @@
 (* C19 - the image cache as a state machine: hand model of get_image_from_uri (weasyprint/images.py) with the
-   caller-supplied `cache` dictionary threaded by Document._build_layout_context (options['cache']), and of the part
-   of RasterImage.get_x_object that touches the cached object (the dpi down-sampling writes the thumbnail back into
-   self.image_data).  Definitions only.
+   caller-supplied `cache` dictionary threaded by Document._build_layout_context (options['cache']), and of what
+   RasterImage.get_x_object does to the cached object at write time.  Definitions only.
+
+   The dictionary key is f'{url} {orientation} {(dpi, optimize_images, jpeg_quality)}': a request is (URL, key part,
+   forced mime type), the forced mime type being the only argument the loaded image may depend on that is NOT in the
+   key.  get_x_object with a dpi ratio <> 1 makes a thumbnail in its own slot and leaves self.image_data alone.
 
    The fetcher and the decoders are deterministic functions (Section variables): what the model can say is how the
-   *state* (the dictionary and the mutable image objects it holds) influences the values a render gets.
+   *state* (the dictionary and the image objects it holds) influences the values a render gets.
 
-     fetch u            None = URLFetchingError            (urls.fetch through the caller's url_fetcher)
-     decode u b v       None = ImageLoadingError; otherwise the image data a cold load produces for the variant v
-                        (variant = everything but the URL that the result depends on: orientation, forced mime type,
-                        options dpi / optimize_images / jpeg_quality)
-     resample d r       the data after Image.thumbnail for the dpi ratio r (r <> 1)
-   An image object is a cell of the heap holding its current data; the cache maps a URL to None (failed load: the
-   code stores None under the URL, so failures are cached too) or to the cell. *)
+     fetch u              None = URLFetchingError            (urls.fetch through the caller's url_fetcher)
+     decode u b k m       None = ImageLoadingError; otherwise the image data a cold load produces for the key part k
+                          (orientation, dpi, optimize_images, jpeg_quality) and the forced mime type m
+     resample d r         the data embedded for the dpi ratio r (r <> 1): Image.thumbnail
+   An image object is a cell of the heap holding its data; the cache maps a key to None (failed load: the code stores
+   None under the key, so failures are cached too) or to the cell. *)
 From Coq Require Import List Bool Arith.
 Import ListNotations.
 
 Section Cache.
-  Variables Url Variant Bytes Data Ratio : Type.
+  Variables Url Key Mime Bytes Data Ratio : Type.
   Variable url_eqb : Url -> Url -> bool.
+  Variable key_eqb : Key -> Key -> bool.
   Variable is_one : Ratio -> bool.                 (* dpi_ratio == 1 *)
   Variable fetch : Url -> option Bytes.
-  Variable decode : Url -> Bytes -> Variant -> option Data.
+  Variable decode : Url -> Bytes -> Key -> Mime -> option Data.
   Variable resample : Data -> Ratio -> Data.
 
-  (* dict in insertion order; heap of image objects (RasterImage.image_data) *)
-  Record state := mk { cache : list (Url * option nat); heap : list Data; fetched : list Url }.
+  Definition ckey := (Url * Key)%type.
+  Definition ckey_eqb (a b : ckey) : bool := url_eqb (fst a) (fst b) && key_eqb (snd a) (snd b).
+
+  (* dict in insertion order; heap of image objects; the keys the fetcher was called for, in order *)
+  Record state := mk { cache : list (ckey * option nat); heap : list Data; fetched : list ckey }.
   Definition empty : state := mk [] [] [].
 
-  Fixpoint lookup (u : Url) (c : list (Url * option nat)) : option (option nat) :=
+  Fixpoint lookup (q : ckey) (c : list (ckey * option nat)) : option (option nat) :=
     match c with
     | [] => None
-    | (u', x) :: r => if url_eqb u u' then Some x else lookup u r
-    end.
-
-  Fixpoint set_nth {A} (l : list A) (i : nat) (x : A) : list A :=
-    match l, i with
-    | [], _ => []
-    | _ :: r, O => x :: r
-    | a :: r, S j => a :: set_nth r j x
+    | (q', x) :: r => if ckey_eqb q q' then Some x else lookup q r
     end.
 
   Inductive op :=
-  | Get (u : Url) (v : Variant)          (* get_image_from_uri(cache, fetcher, options, url, mime, context, orientation) *)
-  | Emit (u : Url) (r : Ratio).          (* write_pdf: cache[url].get_x_object(interpolate, dpi_ratio) *)
+  | Get (u : Url) (k : Key) (m : Mime)   (* get_image_from_uri(cache, fetcher, options, url, mime, context, orientation) *)
+  | Emit (u : Url) (k : Key) (r : Ratio). (* write_pdf: cache[key].get_x_object(interpolate, dpi_ratio) *)
 
-  (* what the caller sees: the object (cell) and the data it holds now / the data embedded in the PDF *)
+  (* what the caller sees: the object (cell) and the data it holds / the data embedded in the PDF *)
   Inductive obs :=
   | OGet (x : option (nat * Data))
   | OEmit (x : option Data).
 
   (* the value a cold (empty cache) load gives *)
-  Definition cold (u : Url) (v : Variant) : option Data :=
+  Definition cold (u : Url) (k : Key) (m : Mime) : option Data :=
     match fetch u with
     | None => None
-    | Some b => decode u b v
+    | Some b => decode u b k m
     end.
+
+  Definition embed (d : Data) (r : Ratio) : Data := if is_one r then d else resample d r.
 
   Definition step (s : state) (o : op) : state * obs :=
     match o with
-    | Get u v =>
-        match lookup u (cache s) with
-        | Some None => (s, OGet None)                                   (* if url in cache: return cache[url] *)
+    | Get u k m =>
+        match lookup (u, k) (cache s) with
+        | Some None => (s, OGet None)                                   (* if key in cache: return cache[key] *)
         | Some (Some cell) =>
             (s, OGet (match nth_error (heap s) cell with Some d => Some (cell, d) | None => None end))
         | None =>
             match fetch u with
-            | None => (mk (cache s ++ [(u, None)]) (heap s) (fetched s ++ [u]), OGet None)
+            | None => (mk (cache s ++ [((u, k), None)]) (heap s) (fetched s ++ [(u, k)]), OGet None)
             | Some b =>
-                match decode u b v with
-                | None => (mk (cache s ++ [(u, None)]) (heap s) (fetched s ++ [u]), OGet None)
+                match decode u b k m with
+                | None => (mk (cache s ++ [((u, k), None)]) (heap s) (fetched s ++ [(u, k)]), OGet None)
                 | Some d =>
                     let cell := length (heap s) in
-                    (mk (cache s ++ [(u, Some cell)]) (heap s ++ [d]) (fetched s ++ [u]), OGet (Some (cell, d)))
+                    (mk (cache s ++ [((u, k), Some cell)]) (heap s ++ [d]) (fetched s ++ [(u, k)]), OGet (Some (cell, d)))
                 end
             end
         end
-    | Emit u r =>
-        match lookup u (cache s) with
+    | Emit u k r =>                                                     (* the state is left as it is *)
+        match lookup (u, k) (cache s) with
         | Some (Some cell) =>
             match nth_error (heap s) cell with
-            | Some d =>
-                if is_one r then (s, OEmit (Some d))
-                else let d' := resample d r in
-                     (mk (cache s) (set_nth (heap s) cell d') (fetched s), OEmit (Some d'))   (* self.image_data = ... *)
+            | Some d => (s, OEmit (Some (embed d r)))
             | None => (s, OEmit None)
             end
         | _ => (s, OEmit None)
@@ -96,47 +94,43 @@ Section Cache.
     | o :: r => let '(s1, x) := step s o in let '(s2, xs) := run s1 r in (s2, x :: xs)
     end.
 
-  (* ---- the specification: what the same operation gives with no cache at all ---- *)
-  Definition variant_of (u : Url) (h : list op) : option Variant :=
-    (fix go (h : list op) : option Variant :=
-       match h with
-       | [] => None
-       | Get u' v :: r => if url_eqb u u' then Some v else go r
-       | Emit _ _ :: r => go r
-       end) h.
-
-  Definition no_resampling (h : list op) : bool :=
-    forallb (fun o => match o with Emit _ r => is_one r | Get _ _ => true end) h.
+  (* the mime type the key was first requested with *)
+  Fixpoint mime_of (q : ckey) (h : list op) : option Mime :=
+    match h with
+    | [] => None
+    | Get u k m :: r => if ckey_eqb q (u, k) then Some m else mime_of q r
+    | Emit _ _ _ :: r => mime_of q r
+    end.
 End Cache.
 
-Arguments Get {Url Variant Ratio}.
-Arguments Emit {Url Variant Ratio}.
+Arguments Get {Url Key Mime Ratio}.
+Arguments Emit {Url Key Mime Ratio}.
 Arguments OGet {Data}.
 Arguments OEmit {Data}.
-Arguments mk {Url Data}.
-Arguments cache {Url Data}.
-Arguments heap {Url Data}.
-Arguments fetched {Url Data}.
-Arguments empty {Url Data}.
+Arguments mk {Url Key Data}.
+Arguments cache {Url Key Data}.
+Arguments heap {Url Key Data}.
+Arguments fetched {Url Key Data}.
+Arguments empty {Url Key Data}.
 
 (* ---------------------------------------------------------------------------------------------------------------
-   Instance used by the correspondence stream: URLs, variants and ratios are small integers, the data of an image
-   is the *term* saying how it was made (cold load of (u, v), then the ratios it was re-sampled with, oldest first);
-   the harness measures the value of every such term on the implementation with cold, isolated calls and gives the
-   table to the judge. *)
+   Instance used by the correspondence stream: URLs, key parts, mime types and ratios are small integers, the data
+   of an image is the *term* saying how it was made (cold load of (u, k, m), then the ratio it was re-sampled with
+   for an embedding); the harness measures the value of every such term on the implementation with cold, isolated
+   calls and gives the table to the judge. *)
 From Coq Require Import ZArith.
 Open Scope Z_scope.
 
-Definition term := (Z * Z * list Z)%type.
+Definition term := (Z * Z * Z * list Z)%type.
 
-Definition t_decode (ok : list (Z * Z)) (u : Z) (_ : unit) (v : Z) : option term :=
-  if existsb (fun p => (fst p =? u) && (snd p =? v)) ok then Some (u, v, []) else None.
+Definition t_decode (ok : list (Z * Z * Z)) (u : Z) (_ : unit) (k m : Z) : option term :=
+  if existsb (fun p => (fst (fst p) =? u) && (snd (fst p) =? k) && (snd p =? m)) ok then Some (u, k, m, []) else None.
 Definition t_fetch (fails : list Z) (u : Z) : option unit := if existsb (Z.eqb u) fails then None else Some tt.
-Definition t_resample (d : term) (r : Z) : term := let '(u, v, rs) := d in (u, v, rs ++ [r]).
+Definition t_resample (d : term) (r : Z) : term := let '(u, k, m, rs) := d in (u, k, m, rs ++ [r]).
 
 Definition term_eqb (a b : term) : bool :=
-  let '(u, v, rs) := a in let '(u', v', rs') := b in
-  (u =? u') && (v =? v') && (Nat.eqb (length rs) (length rs')) && forallb (fun p => fst p =? snd p) (combine rs rs').
+  let '(u, k, m, rs) := a in let '(u', k', m', rs') := b in
+  (u =? u') && (k =? k') && (m =? m') && (Nat.eqb (length rs) (length rs')) && forallb (fun p => fst p =? snd p) (combine rs rs').
 
 Fixpoint tlookup (t : term) (tab : list (term * Z)) : option Z :=
   match tab with [] => None | (t', x) :: r => if term_eqb t t' then Some x else tlookup t r end.
@@ -145,44 +139,39 @@ Fixpoint tlookup (t : term) (tab : list (term * Z)) : option Z :=
    for Emit (value id of the embedded image or -1) *)
 Inductive iobs := IGet (cell : Z) (val : Z) | IEmit (val : Z).
 
-Definition obs_matches (tget temit : list (term * Z)) (o : obs term) (i : iobs) (r_is_one : bool) : bool :=
+Definition obs_matches (tget temit : list (term * Z)) (o : obs term) (i : iobs) : bool :=
   match o, i with
   | OGet None, IGet c _ => c =? -1
   | OGet (Some (cell, d)), IGet c x =>
       (c =? Z.of_nat cell) && match tlookup d tget with Some y => x =? y | None => false end
   | OEmit None, IEmit x => x =? -1
-  | OEmit (Some d), IEmit x =>
-      (* the embedded object also depends on whether this call re-sampled (declared size): key = data term + flag *)
-      match tlookup (let '(u, v, rs) := d in (u, v, rs ++ [if r_is_one then 1 else 0])) temit with
-      | Some y => x =? y | None => false end
+  | OEmit (Some d), IEmit x => match tlookup d temit with Some y => x =? y | None => false end
   | _, _ => false
   end.
 
-(* case: (fetch failures, decodable (u,v) pairs, table for Get values, table for Emit values, history, impl
-   observations, number of fetcher calls the implementation made).  Ratio 1 is the integer 1. *)
-Definition ccase := (list Z * list (Z * Z) * list (term * Z) * list (term * Z) * list (op Z Z Z)
-                     * list iobs * Z)%type.
+Definition run_t (fails : list Z) (ok : list (Z * Z * Z)) :=
+  run Z Z Z unit term Z Z.eqb Z.eqb (fun r => r =? 1) (t_fetch fails) (t_decode ok) t_resample.
 
-(* spec on the implementation's outputs: every Get gives the value of the cold load, every Emit the value of the cold load
-   (of the variant the URL was requested with so far) embedded with that ratio *)
-Fixpoint spec_ok (fails : list Z) (ok : list (Z * Z)) (tget temit : list (term * Z)) (pre h : list (op Z Z Z)) (io : list iobs) : bool :=
+(* spec on the implementation's outputs: every Get gives the value of the cold load of what was asked, every Emit the
+   value of the cold load (with the mime type the key was requested with so far) embedded with that ratio *)
+Fixpoint spec_ok (fails : list Z) (ok : list (Z * Z * Z)) (tget temit : list (term * Z)) (pre h : list (op Z Z Z Z)) (io : list iobs) : bool :=
   match h, io with
   | [], [] => true
   | o :: r, i :: ir =>
       (match o, i with
-       | Get u v, IGet c x =>
-           match cold Z Z unit term (t_fetch fails) (t_decode ok) u v with
+       | Get u k m, IGet c x =>
+           match cold Z Z Z unit term (t_fetch fails) (t_decode ok) u k m with
            | None => c =? -1
            | Some d => match tlookup d tget with Some y => x =? y | None => false end
            end
-       | Emit u rt, IEmit x =>
-           match variant_of Z Z Z Z.eqb u pre with
+       | Emit u k rt, IEmit x =>
+           match mime_of Z Z Z Z Z.eqb Z.eqb (u, k) pre with
            | None => x =? -1
-           | Some v =>
-               match cold Z Z unit term (t_fetch fails) (t_decode ok) u v with
+           | Some m =>
+               match cold Z Z Z unit term (t_fetch fails) (t_decode ok) u k m with
                | None => x =? -1
-               | Some (u', v', _) =>
-                   match tlookup (u', v', (if rt =? 1 then [] else [rt]) ++ [if rt =? 1 then 1 else 0]) temit with
+               | Some d =>
+                   match tlookup (embed term Z (fun r => r =? 1) t_resample d rt) temit with
                    | Some y => x =? y | None => false end
                end
            end
@@ -191,12 +180,15 @@ Fixpoint spec_ok (fails : list Z) (ok : list (Z * Z)) (tget temit : list (term *
   | _, _ => false
   end.
 
+(* case: (fetch failures, decodable (u,k,m) triples, table for Get values, table for Emit values, history, impl
+   observations, number of fetcher calls the implementation made).  Ratio 1 is the integer 1. *)
+Definition ccase := (list Z * list (Z * Z * Z) * list (term * Z) * list (term * Z) * list (op Z Z Z Z) * list iobs * Z)%type.
+
 Definition cache_judge (c : ccase) : nat :=
   let '(fails, ok, tget, temit, h, iobs_, nfetch) := c in
-  let '(s, os) := run Z Z unit term Z Z.eqb (fun r => r =? 1) (t_fetch fails) (t_decode ok) t_resample empty h in
-  let flags := map (fun o => match o with Emit _ r => r =? 1 | Get _ _ => true end) h in
+  let '(s, os) := run_t fails ok empty h in
   let same := (Nat.eqb (length os) (length iobs_)) &&
-              forallb (fun p => obs_matches tget temit (fst (fst p)) (snd (fst p)) (snd p)) (combine (combine os iobs_) flags) &&
+              forallb (fun p => obs_matches tget temit (fst p) (snd p)) (combine os iobs_) &&
               (Z.of_nat (length (fetched s)) =? nfetch) in
   let spec := spec_ok fails ok tget temit [] h iobs_ in
   ((if same then 0 else 1) + (if spec then 0 else 2))%nat.
